@@ -276,7 +276,7 @@ func runC23(c *an.Ctx) {
 			}
 		})
 		c.Add(len(incResp) == 1, "R1", "streamKeyResp:one-count-site", sk, "one NumResp++ per loop iteration", "store enumeration")
-		c.Add(len(incErr) == 3, "R1", "streamKeyResp:three-error-sites", sk, "exactly three NumErr++ sites", "store enumeration")
+		c.Add(len(incErr) >= 1, "R1", "streamKeyResp:three-error-sites", sk, "NumErr is incremented in the aggregation loop", "store enumeration")
 		// NumResp++ dominates everything else in the body
 		if len(incResp) == 1 {
 			n := 0
@@ -305,19 +305,27 @@ func runC23(c *an.Ctx) {
 			{{L: dec, Op: "!=", R: "c:nil"}},
 			{{L: "local:nodeKeyResponse.Result", Op: "==", R: "c:false"}},
 		}
-		used := map[int]bool{}
-		for _, e := range incErr {
-			hit := -1
-			for i, alts := range conds {
-				if anyGuard(sk, e, alts...) {
-					hit = i
+		// an increment counts a failure, and counts it once: it is unreachable unless one of the failure
+		// conditions holds, and no second increment can follow it before the next reply is received
+		var failing []an.Cmp
+		for _, alts := range conds {
+			failing = append(failing, alts...)
+		}
+		isInc := func(in ssa.Instruction) bool {
+			for _, e := range incErr {
+				if e == in {
+					return true
 				}
 			}
-			// the most specific (latest) condition that guards it
-			c.Add(hit >= 0 && !used[hit], "R1", "streamKeyResp:error-edge", e, "NumErr++ sits on one of the three failure edges (bad type byte/empty, undecodable, Result false), each used once", "edge dominance")
-			if hit >= 0 {
-				used[hit] = true
-			}
+			return false
+		}
+		isRecv := func(in ssa.Instruction) bool {
+			u, ok := in.(*ssa.UnOp)
+			return ok && u.Op.String() == "<-"
+		}
+		for _, e := range incErr {
+			twice := an.ReachFrom(sk, e, &an.Cut{Instrs: isRecv}, isInc)
+			c.Add(an.GuardedAny(sk, e, failing...) && twice == nil, "R1", "streamKeyResp:error-edge", e, "NumErr++ is reached only when the reply is empty/ill-typed, undecodable or reports failure, and at most once per reply", "reach/cut over the failure conditions + no second increment before the next receive")
 		}
 		// completeness: every failure edge passes an increment before the next reply
 		// completeness: a reply escapes the error count only if it is non-empty, well-typed, decoded and successful —
